@@ -671,6 +671,13 @@ PROPS["C01"]["check_mods"].append("C07")
 PROPS["C01"]["drivers"].append({"name": "c07", "n_quick": 150, "n_thorough": 4000, "timeout": 3000})
 PROPS["C01"]["rule"] += (" What the I/O thread writes on its own account (c07, see C07): the Connection.Close of a client "
     "exception for offending frames whose rendering is long and non-ASCII - a well-formed method frame, whatever the text.")
+# the public wrapper in front of the allocator (seed C10f): open_channel / close through Connection and Channel
+PROPS["C10"]["drivers"].append({"name": "c10l2", "n_quick": 60, "n_thorough": 3000, "timeout": 3000})
+PROPS["C10"]["rule"] += (" Through the public API (c10l2): real connections whose channel_max (1 / 2 / 3 / 5 / 8) was negotiated "
+    "with the broker; 4-24 random operations - open_channel(Some(id)) with id 0, in range, the maximum, just above it, "
+    "255 / 256 / 65535, open_channel(None), Channel::close of a random open channel - judged by the same model and the "
+    "same oracle as the ChannelSlots cases.")
+PROPS["C10"]["trusted_base"] = PROPS["C10"]["trusted_base"] + L2_TRUSTED
 # a silent server while the connection is closing (seed C05d): the heartbeat scenarios of the c05 generator
 PROPS["C17"]["check_mods"].append("C05")
 PROPS["C17"]["drivers"].append({"name": "c05core", "n_quick": 160, "n_thorough": 2000, "timeout": 3000})
